@@ -4,7 +4,7 @@
 (* guards).  Scenario families are selected with OpKinds.                   *)
 EXTENDS MetadataFSM, Json
 
-CONSTANTS StreamSet, MaxParts, Brokers, ConsumerSet, Coords, OpKinds, MaxOps, MaxSnaps, MaxRestarts, Variants
+CONSTANTS StreamSet, MaxParts, Brokers, ConsumerSet, Coords, OpKinds, MaxOps, MaxSnaps, MaxRestarts, Variants, Extras
 VARIABLES log, last, nSnap, nRestart
 mcvars == <<vars, log, last, nSnap, nRestart>>
 
@@ -56,6 +56,12 @@ MCSnapshot(ord) ==
   /\ nSnap < MaxSnaps /\ ~sref.has /\ applied > 0 /\ DoSnapshot(ord)
   /\ nSnap' = nSnap + 1 /\ last' = [a |-> "Snapshot"] /\ UNCHANGED <<log, nRestart>>
 MCPersist == DoPersist /\ last' = [a |-> "Persist"] /\ UNCHANGED <<log, nSnap, nRestart>>
+\* Persist with an operation applied while it writes (scenario families that list "PersistWith" in Extras)
+MCPersistWith(o) ==
+  /\ "PersistWith" \in Extras /\ Len(log) < MaxOps /\ Valid(o) /\ Sensible(o)
+  /\ DoPersistWith(o)
+  /\ log' = Append(log, o) /\ last' = [a |-> "PersistWith", o |-> o]
+  /\ UNCHANGED <<nSnap, nRestart>>
 MCRestart ==
   /\ nRestart < MaxRestarts /\ applied > 0 /\ DoRestart
   /\ nRestart' = nRestart + 1 /\ last' = [a |-> "Restart"] /\ UNCHANGED <<log, nSnap>>
@@ -84,6 +90,7 @@ MCNext ==
   \/ MCReplay
   \/ \E ord \in [GroupIds -> AllCPerms] : GoodSnapOrder(ord) /\ MCSnapshot(SnapOrd(ord))
   \/ MCPersist
+  \/ \E o \in Candidates : MCPersistWith(o)
   \/ MCRestart
   \/ MCInstall
   \/ MCCatchup
